@@ -157,6 +157,72 @@ fn run_workload(w: &[Step], shared: &[(String, FrozenModule)], drop_box: &Mutex<
     out
 }
 
+/// Drop storm: heaps built back to back on one thread (they share arena chunks through the per-thread chunk cache) are
+/// handed to persistent dropper threads which release them at the same instant (spin start signal); repeated `rounds`
+/// times. Values are read before the hand-over. The observable outcome is only "no crash, no corrupted value" - the
+/// reference-count traffic on shared chunks is what this stresses.
+fn drop_storm(rounds: u32, nthreads: usize, seed: u32) -> String {
+    use std::sync::atomic::AtomicU64;
+    use std::sync::atomic::AtomicUsize;
+    use std::sync::atomic::Ordering;
+    use starlark::values::FrozenHeap;
+    use starlark::values::FrozenHeapRef;
+    let slots: Arc<Vec<Mutex<Option<FrozenHeapRef>>>> = Arc::new((0..nthreads).map(|_| Mutex::new(None)).collect());
+    let generation = Arc::new(AtomicU64::new(0));
+    let done = Arc::new(AtomicUsize::new(0));
+    let stop = Arc::new(std::sync::atomic::AtomicBool::new(false));
+    let mut hs = Vec::new();
+    for t in 0..nthreads {
+        let (slots, generation, done, stop) = (slots.clone(), generation.clone(), done.clone(), stop.clone());
+        hs.push(std::thread::spawn(move || {
+            let mut seen = 0u64;
+            loop {
+                let g = generation.load(Ordering::Acquire);
+                if g == seen {
+                    if stop.load(Ordering::Relaxed) {
+                        return;
+                    }
+                    std::hint::spin_loop();
+                    continue;
+                }
+                seen = g;
+                let h = slots[t].lock().unwrap().take();
+                drop(h);
+                done.fetch_add(1, Ordering::Release);
+            }
+        }));
+    }
+    let mut checksum = 0u64;
+    for r in 0..rounds {
+        let mut built = Vec::new();
+        for t in 0..nthreads {
+            let heap = FrozenHeap::new();
+            let n = 1 + ((seed as usize + r as usize + t) % 5);
+            let mut last = None;
+            for i in 0..n {
+                last = Some(heap.alloc(format!("storm-{r}-{t}-{i}-").repeat(1 + (r as usize + i) % 4)));
+            }
+            if let Some(v) = last {
+                checksum = checksum.wrapping_mul(31).wrapping_add(v.to_value().unpack_str().map(|s| s.len() as u64).unwrap_or(0));
+            }
+            built.push(heap.into_ref());
+        }
+        for (t, h) in built.into_iter().enumerate() {
+            *slots[t].lock().unwrap() = Some(h);
+        }
+        done.store(0, Ordering::Release);
+        generation.fetch_add(1, Ordering::Release);
+        while done.load(Ordering::Acquire) < nthreads {
+            std::hint::spin_loop();
+        }
+    }
+    stop.store(true, Ordering::Relaxed);
+    for h in hs {
+        let _ = h.join();
+    }
+    format!("storm rounds={rounds} threads={nthreads} checksum={checksum}")
+}
+
 /// `svf c20-child <file> <mode>`; mode: "seq" or "conc:<barrier 0/1>:<oversubscribe 0/1>:<concurrent-build 0/1>"
 pub fn child_main(path: &str, mode: &str) -> i32 {
     install_quiet_panic_hook();
@@ -247,6 +313,12 @@ pub fn child_main(path: &str, mode: &str) -> i32 {
         }
         // last owner of the shared modules may be any thread
         let _ = std::thread::spawn(move || drop(shared)).join();
+        let storm_rounds = j["storm_rounds"].as_u64().unwrap_or(0) as u32;
+        if storm_rounds > 0 {
+            let nt = 2 + (yields.first().copied().unwrap_or(0) as usize % 3);
+            let line = drop_storm(storm_rounds, nt, yields.first().copied().unwrap_or(0));
+            eprintln!("{line}");
+        }
         r
     };
     drop(drop_box);
@@ -286,7 +358,7 @@ impl Prop for C20 {
         4
     }
     fn rule(&self) -> String {
-        "Case = 2..16 per-thread workloads of 5..40 steps drawn by proptest from: load+call functions of three chained frozen modules (recursion, records, enums, typed defs with runtime type matchers, comprehensions, lambdas/partial, string formatting, json, hash()); host-side encode/hash/equality of shared frozen values; build+freeze+read+drop of a private module; creating a frozen module that references the shared ones and handing it to whichever thread drops it; dropping heaps created by other threads; first use of Globals::standard()/extended_internal() and of the harness globals. Every case runs in fresh processes: one reference process executing each workload alone, and three concurrent processes (start barrier / staggered starts with generated spin and yield points; 16 extra spinning threads oversubscribing the 16 cores; the shared modules built concurrently by three threads). Oracle: every thread's transcript equals the transcript of the same workload run alone; a child that dies is a violation; freed arenas are poisoned (hook H2). evaluations = thread transcripts compared. Non-trivial = >= 2 threads touch the shared frozen heaps while at least one thread creates or drops a heap; distinct = distinct workload set.".into()
+        "Case = 2..16 per-thread workloads of 5..40 steps drawn by proptest from: load+call functions of three chained frozen modules (recursion, records, enums, typed defs with runtime type matchers, comprehensions, lambdas/partial, string formatting, json, hash()); host-side encode/hash/equality of shared frozen values; build+freeze+read+drop of a private module; creating a frozen module that references the shared ones and handing it to whichever thread drops it; dropping heaps created by other threads; a drop storm at the end of every concurrent process (20 000 rounds in quick: 2-4 frozen heaps built back to back on one thread, so that they share arena chunks, released at the same instant by persistent dropper threads); first use of Globals::standard()/extended_internal() and of the harness globals. Every case runs in fresh processes: one reference process executing each workload alone, and three concurrent processes (start barrier / staggered starts with generated spin and yield points; 16 extra spinning threads oversubscribing the 16 cores; the shared modules built concurrently by three threads). Oracle: every thread's transcript equals the transcript of the same workload run alone; a child that dies is a violation; freed arenas are poisoned (hook H2). evaluations = thread transcripts compared. Non-trivial = >= 2 threads touch the shared frozen heaps while at least one thread creates or drops a heap; distinct = distinct workload set.".into()
     }
     fn assumptions(&self) -> Vec<String> {
         vec!["the harness does not own the OS schedule: randomised barriers, staggered starts, yields and over-subscription raise the chance of exposing a race but a race that needs a specific instruction interleaving can stay hidden".into()]
@@ -302,7 +374,8 @@ impl Prop for C20 {
             workloads.push((0..n).map(|_| (ch.below(8), ch.below(200))).collect());
         }
         let yields: Vec<u32> = (0..nthreads).map(|_| ch.raw() % 1000).collect();
-        let case = json!({"workloads": workloads.iter().map(|w| w.iter().map(|s| json!([s.0, s.1])).collect::<Vec<_>>()).collect::<Vec<_>>(), "yields": yields});
+        let storm_rounds: u32 = if ctx.tier == Tier::Quick { 20_000 } else { 60_000 };
+        let case = json!({"workloads": workloads.iter().map(|w| w.iter().map(|s| json!([s.0, s.1])).collect::<Vec<_>>()).collect::<Vec<_>>(), "yields": yields, "storm_rounds": storm_rounds});
         let dir = format!("{WORK_DIR}/C20");
         let _ = std::fs::create_dir_all(&dir);
         let path = format!("{dir}/case-{}-{}.json", std::process::id(), ctx.worker);
